@@ -357,3 +357,165 @@ theorem toWire_pad_no_tsig (m : Message) (lim : Nat) (pt : Bool) (w : Bytes) (o 
         rw [this]; exact hp
 
 end Model
+
+namespace Model
+
+/-- a name none of whose suffixes can be in the table (all keys are longer) is written in full -/
+theorem cLoop_plain (off : Nat) (t : CTable) (n : Name) (h : ∀ p ∈ t, n.length < p.1.length) :
+    (cLoop off t n).1 = toWire n := by
+  induction n generalizing off t with
+  | nil => simp [cLoop, toWire]
+  | cons l rest ih =>
+    unfold cLoop
+    have hget : ctGet t (l :: rest) = none := by
+      unfold ctGet
+      cases hf : t.find? (fun p => lowerName p.1 == lowerName (l :: rest)) with
+      | none => rfl
+      | some p =>
+        exfalso
+        have hm := List.mem_of_find?_eq_some hf
+        have he := List.find?_some hf
+        have hl : p.1.length = (l :: rest).length := by
+          have : lowerName p.1 = lowerName (l :: rest) := by simpa using he
+          have := congrArg List.length this
+          simpa [lowerName] using this
+        have := h p hm
+        omega
+    rw [hget]
+    simp only
+    rw [ih]
+    · simp [toWire]
+    · intro p hp
+      rcases List.mem_append.mp hp with hp | hp
+      · have := h p hp; simp at this ⊢; omega
+      · split at hp
+        · simp at hp; subst hp; simp
+        · simp at hp
+
+/-- the OPT step with padding: afterwards buffer length + TSIG reserve is a multiple of the block -/
+theorem addOpt_pad_length (r : RState) (hk : KeysLong r.tbl) (o : EOpt) (pad a b : Nat) (hpad : pad ≠ 0) (r5 : RState)
+    (ha : a = 11 + (o.options.map fun p => p.2.length + 4).sum + 4)
+    (h : stepToExcept (r.addOpt o pad a b) = .ok r5) :
+    (r5.out.length + b) % pad = 0 ∧ r.out.length ≤ r5.out.length := by
+  unfold RState.addOpt at h
+  simp only [hpad, ne_eq, not_false_eq_true, if_true] at h
+  cases hs : ({ r with wasPadded := true } : RState).addRRset ConstsC03.secADDITIONAL
+      (optRRset { o with options := o.options ++ [(ConstsC03.optPADDING,
+        if (r.out.length + a + b) % pad ≠ 0 then List.replicate (pad - (r.out.length + a + b) % pad) 0 else [])] }) with
+  | err e => rw [hs] at h; simp [stepToExcept] at h
+  | tooBig s1 => rw [hs] at h; simp [stepToExcept] at h
+  | ok s5 =>
+    rw [hs] at h
+    simp [stepToExcept] at h
+    subst h
+    have hlen := addRRset_opt_length _ _ s5 (by exact hk) hs
+    have e : ({ r with wasPadded := true } : RState).out.length = r.out.length := rfl
+    rw [e] at hlen
+    have hp := pad_arith (r.out.length + a + b) pad hpad
+    simp only [optionsWire_append, List.length_append, optionsWire_length, List.map_cons, List.map_nil, List.sum_cons,
+      List.sum_nil] at hlen
+    refine ⟨?_, by omega⟩
+    by_cases hz : (r.out.length + a + b) % pad = 0
+    · simp only [hz, ne_eq, not_true_eq_false, if_false, List.length_nil] at hlen hp
+      have : s5.out.length + b = r.out.length + a + b + 0 := by omega
+      rw [this]; exact hp
+    · simp only [hz, ne_eq, not_false_eq_true, if_true, List.length_replicate] at hlen hp
+      have : s5.out.length + b = r.out.length + a + b + (pad - (r.out.length + a + b) % pad) := by omega
+      rw [this]; exact hp
+
+/-- the TSIG record rendered against an empty table has exactly the reserved size -/
+theorem addRRset_tsig_length (s : RState) (t : Tsig) (s' : RState) (b : Nat) (htbl : s.tbl = [])
+    (hres : (match (some t : Option Tsig) with
+      | none => (Except.ok 0 : Except RErr Nat)
+      | some t => if isAbs t.name then .ok ((toWire t.name).length + 10 + (tsigRdataWire t).length) else .error .needAbsolute) = .ok b)
+    (h : s.addRRset ConstsC03.secADDITIONAL (tsigRRset t) = .ok s') :
+    s'.out.length = s.out.length + b := by
+  simp only at hres
+  by_cases habs : isAbs t.name = true
+  · simp only [habs, if_true, Except.ok.injEq] at hres
+    unfold RState.addRRset at h
+    split at h
+    · simp at h
+    · rename_i s1 hs1
+      obtain ⟨rfl, _⟩ := setSection_ok hs1
+      have hw : toWireC s.out s.tbl (tsigRRset t).name s.origin
+          = .ok (s.out ++ toWire t.name, s.tbl ++ (cLoop s.out.length s.tbl t.name).2) := by
+        rw [toWireC_eq]
+        have : wireName (tsigRRset t).name s.origin = some t.name := by simp [wireName, tsigRRset, habs]
+        rw [this]
+        simp only
+        rw [cLoop_plain _ _ _ (by rw [htbl]; intro p hp; simp at hp)]
+      have := rrsetToWire_single_raw s.out s.tbl s.origin (tsigRRset t) (tsigRdataWire t) (toWire t.name) _ rfl rfl hw
+      simp only at h
+      rw [this] at h
+      by_cases hb : (tsigRdataWire t).length > 65535
+      · simp [hb] at h
+      · simp only [hb, if_false] at h
+        rw [endTrack_ok_out h, ← hres]
+        simp [u16, u32]
+        omega
+  · simp [habs] at hres
+
+/-- with padding requested, the rendered length — TSIG included — is a multiple of the block size -/
+theorem toWire_pad (m : Message) (lim : Nat) (pt : Bool) (w : Bytes) (o : EOpt)
+    (hopt : m.opt = some o) (hpad : m.pad ≠ 0) (h : m.toWire lim pt = .ok w) :
+    w.length % m.pad = 0 := by
+  rw [toWire_eq] at h
+  cases hb : m.tsigReserve with
+  | error e => rw [hb] at h; simp at h
+  | ok b =>
+    rw [hb] at h
+    simp only at h
+    cases hr : m.renderSections (clampSize lim m.requestPayload) pt m.optReserve b with
+    | error e => rw [hr] at h; simp at h
+    | ok r =>
+      rw [hr] at h
+      simp only at h
+      have hk := renderSections_keys m _ _ _ _ r hr
+      obtain ⟨hi, _, _⟩ := renderSections_inv m _ _ _ _ r hr
+      obtain ⟨c1, c2⟩ := opt_consts
+      have hres : m.optReserve = 11 + (o.options.map fun p => p.2.length + 4).sum + 4 := by
+        simp [Message.optReserve, hopt, hpad, c1, c2]
+      unfold finishOut RState.finish at h
+      simp only [hopt] at h
+      cases h5 : stepToExcept (r.releaseReserved.addOpt o m.pad m.optReserve b) with
+      | error e => rw [h5] at h; simp at h
+      | ok r5 =>
+        rw [h5] at h
+        simp only at h
+        obtain ⟨hmod, hge⟩ := addOpt_pad_length r.releaseReserved hk o m.pad _ b hpad r5 hres h5
+        have h12 : 12 ≤ r5.out.length := by
+          have := hi.hdr
+          have e : r.releaseReserved.out.length = r.out.length := rfl
+          omega
+        cases hts : m.tsig with
+        | none =>
+          have hb0 : b = 0 := by simp [Message.tsigReserve, hts] at hb; exact hb.symm
+          rw [hts] at h
+          simp at h
+          rw [← h, writeHeader_length r5 h12]
+          rw [hb0] at hmod
+          simpa using hmod
+        | some t =>
+          rw [hts] at h
+          simp only at h
+          cases h6 : ({ r5.writeHeader with tbl := [] } : RState).addRRset ConstsC03.secADDITIONAL (tsigRRset t) with
+          | err e => rw [h6] at h; simp [stepToExcept] at h
+          | tooBig s1 => rw [h6] at h; simp [stepToExcept] at h
+          | ok r6 =>
+            rw [h6] at h
+            simp [stepToExcept] at h
+            have hbt : (match (some t : Option Tsig) with
+                | none => (Except.ok 0 : Except RErr Nat)
+                | some t => if isAbs t.name then .ok ((toWire t.name).length + 10 + (tsigRdataWire t).length) else .error .needAbsolute) = .ok b := by
+              simp only [Message.tsigReserve, hts] at hb
+              exact hb
+            have hl6 := addRRset_tsig_length ({ r5.writeHeader with tbl := [] } : RState) t r6 b rfl hbt h6
+            have e : ({ r5.writeHeader with tbl := [] } : RState).out.length = r5.out.length := by
+              show r5.writeHeader.out.length = _
+              exact writeHeader_length r5 h12
+            rw [e] at hl6
+            rw [← h, writeHeader_length r6 (by omega), hl6]
+            exact hmod
+
+end Model
